@@ -67,7 +67,7 @@ theorem kinv_advance {s : Emu} (h : KInv s) (t : Nat) (hle : s.now ≤ t) (hm : 
   have : t < n := hlt
   exact h.at_pending n hn (by omega)
 
-theorem kinv_step {s : Emu} (h : KInv s) (hI : EInv s) (o : EOp) (hok : Legal s o) : KInv (estep s o) := by
+theorem kinv_step {s : Emu} (h : KInv s) (hI : ETime s) (o : EOp) (hok : Legal s o) : KInv (estep s o) := by
   cases o with
   | deliver id =>
     show KInv (deliver s id).1
@@ -138,23 +138,19 @@ theorem kinv_step {s : Emu} (h : KInv s) (hI : EInv s) (o : EOp) (hok : Legal s 
     have h1 := kinv_advance h t (hI.t_wgc _ hmem) hm
     show KInv (wgComplete { s with wgcs := s.wgcs.erase (t, id), now := t } id)
     unfold wgComplete
-    dsimp only
-    split
-    · exact kinv_frame h1 rfl rfl rfl rfl rfl
-    · split
-      · exact kinv_frame h1 rfl rfl rfl rfl rfl
-      · exact kinv_frame h1 rfl rfl rfl rfl rfl
+    obtain ⟨r1, r2, r3⟩ := wgRecord_port { s with wgcs := s.wgcs.erase (t, id), now := t } id
+    obtain ⟨_, q2, _, _, _, q6, _⟩ := wgRecord_time { s with wgcs := s.wgcs.erase (t, id), now := t } id
+    obtain ⟨f1, f2, f3⟩ := wgFlush_port (wgRecord { s with wgcs := s.wgcs.erase (t, id), now := t } id) id
+    obtain ⟨_, g2, _, _, _, g6, _⟩ := wgFlush_time (wgRecord { s with wgcs := s.wgcs.erase (t, id), now := t } id) id
+    exact kinv_frame h1 (f1.trans r1) (g2.trans q2) (f2.trans r2) (g6.trans q6) (f3.trans r3)
 
-theorem eok_legal {s : Emu} {o : EOp} (h : EOk s o) : Legal s o := by
-  cases o <;> simp only [EOk, Legal] at h ⊢ <;> first | trivial | exact h.1 | exact h
-
-theorem kinv_run {s : Emu} (h : KInv s) (hI : EInv s) :
-    ∀ (ops : List EOp), RunOk EOk s ops → KInv (erun s ops) := by
+theorem kinv_run {s : Emu} (h : KInv s) (hI : ETime s) :
+    ∀ (ops : List EOp), RunOk EOkNoH s ops → KInv (erun s ops) := by
   intro ops
   induction ops generalizing s with
   | nil => intro _; exact h
   | cons o os ih =>
     intro hr
-    exact ih (kinv_step h hI o (eok_legal hr.1)) (einv_step hI o hr.1) hr.2
+    exact ih (kinv_step h hI o (eokNoH_legal hr.1)) (etime_step hI o (eokNoH_legal hr.1)) hr.2
 
 end C09.CUSide
